@@ -289,6 +289,90 @@ func init() {
 					emit("nested loop family", pre+"for k in [7, 8] {\nfor i in "+it+" {\n"+inner+"\n}\nx.mark(k)\n}\nx.mark(99)")
 				}
 			}
+			// (3b) re-entrant evaluation: the statement that produced a control signal (return / break /
+			// continue / error) is evaluated again — by a recursive call from finally, an except body or
+			// the otherwise body — before the signal reaches its destination; distinct values per level
+			reenter := func(callee string) []string {
+				return []string{
+					"if n > 0 {\nx.mark(" + callee + "(n - 1))\n}",
+					"if n > 0 {\n" + callee + "(n - 1)\n}",
+					"if n > 1 {\nx.mark(" + callee + "(n - 2))\nx.mark(" + callee + "(n - 1))\n}",
+				}
+			}
+			probes := []string{"x.mark([f(0), f(1), f(2)])", "x.mark(f(3))\nx.mark(f(1))", "x.mark([f(2), f(2)])"}
+			for _, mutual := range []bool{false, true} {
+				callee := "f"
+				second := ""
+				if mutual {
+					callee = "g"
+				}
+				for _, re := range reenter(callee) {
+					bodies := []struct{ name, fn string }{
+						{"return through finally", "try {\nx.mark(n)\nreturn n\n} finally {\n" + re + "\n}"},
+						{"return through finally", "try {\nreturn n * 10 + 1\n} finally {\nx.mark(n)\n" + re + "\nx.mark(n + 100)\n}\nreturn 77"},
+						{"return from except body after re-entry", "try {\nraise(\"E1\", \"d\", n)\n} except \"E1\" as e {\n" + re + "\nx.mark(e.data)\nreturn n + 20\n} finally {\nx.mark(n)\n}"},
+						{"return through except re-entry and finally", "try {\nif n > 0 {\nraise(\"E1\")\n}\nreturn n + 30\n} except {\n" + re + "\nreturn n + 40\n} finally {\n" + re + "\n}"},
+						{"return from otherwise after re-entry", "try {\nx.mark(n)\n} otherwise {\n" + re + "\nreturn n + 50\n} finally {\nx.mark(n + 200)\n}\nreturn 78"},
+						{"error through finally re-entry", "try {\nif n == 0 {\nreturn 5\n}\nraise(\"E2\", \"d\", n)\n} finally {\ntry {\n" + re + "\n} except \"E2\" as e {\nx.mark(e.data)\n}\n}"},
+						{"break through finally re-entry", "for i in [1, 2, 3] {\ntry {\nif i == 2 {\nbreak\n}\nx.mark(n * 10 + i)\n} finally {\n" + re + "\n}\n}\nreturn n"},
+						{"continue through finally re-entry", "for i in range(1, 3) {\ntry {\nif i == 2 {\ncontinue\n}\nx.mark(n * 10 + i)\n} finally {\n" + re + "\n}\nx.mark(n * 10 + i + 5)\n}\nreturn n"},
+						{"break in condition loop through finally re-entry", "w := 3\nfor w > 0 {\nw := w - 1\ntry {\nif w == 1 {\nbreak\n}\nif w == 2 {\ncontinue\n}\nx.mark(n * 10 + w)\n} finally {\n" + re + "\n}\nx.mark(w)\n}\nreturn n + 60"},
+						{"return in loop through finally re-entry", "for i in [1, 2, 3] {\ntry {\nif i == n {\nreturn n * 100 + i\n}\n} finally {\n" + re + "\n}\n}\nreturn -1"},
+						{"return value is a container built per level", "try {\nreturn [n, n + 1]\n} finally {\n" + re + "\n}"},
+					}
+					for _, b := range bodies {
+						for _, pr := range probes {
+							second = ""
+							if mutual {
+								second = "func g(n) {\n" + strings.ReplaceAll(b.fn, callee+"(", "f(") + "\n}\n"
+							}
+							emit("re-entrant: "+b.name, "func f(n) {\n"+b.fn+"\n}\n"+second+pr+"\n99")
+						}
+					}
+				}
+			}
+			// (3c) the type strings of except clauses are EVALUATED string literals: interpolated, raw and
+			// single-quoted forms in every handler shape, the raised type built the same way (and crosswise)
+			styles := []struct{ name, e1, e2 string }{
+				{"interpolated", `"E{{n}}"`, `"E{{n + 1}}"`},
+				{"interpolated-single-quoted", `'{{t}}'`, `'{{u}}'`},
+				{"raw", `r"E1"`, `r"E2"`},
+				{"single-quoted", `'E1'`, `'E2'`},
+				{"raw-with-markers", `r"E{{n}}"`, `r"E{{n + 1}}"`},
+			}
+			restyle := func(txt string, k int) string {
+				if k < 0 {
+					return txt
+				}
+				return strings.ReplaceAll(strings.ReplaceAll(txt, `"E1"`, styles[k].e1), `"E2"`, styles[k].e2)
+			}
+			stylePre := "n := 1\nt := \"E1\"\nu := \"E2\"\n"
+			for k := range styles {
+				for _, cx := range c04Contexts {
+					for _, ex := range c04Exits[4:6] {
+						for _, h := range c04Handlers[2:] {
+							for _, of := range []int{0, 3} {
+								oth, fin := "", ""
+								if of != 0 {
+									oth, fin = "x.mark(32)", "x.mark(42)"
+								}
+								emit("except type strings: "+styles[k].name,
+									stylePre+restyle(cx.pre+c04Try(ex.code, h.clauses, "", oth, fin)+cx.post, k))
+							}
+						}
+					}
+				}
+			}
+			for kh := -1; kh < len(styles); kh++ {
+				for kr := -1; kr < len(styles); kr++ {
+					for _, ex := range c04Exits[4:6] {
+						for _, h := range []int{2, 3, 5, 8, 13} {
+							emit("except type strings: handler style x raise style",
+								stylePre+"x.mark(1)\n"+c04Try(restyle(ex.code, kr), strings.Split(restyle(strings.Join(c04Handlers[h].clauses, "\x00"), kh), "\x00"), "", "", "x.mark(42)")+"\nx.mark(98)\n99")
+						}
+					}
+				}
+			}
 			// (4) random nestings
 			n := 3000
 			if g.Thorough() {
